@@ -74,3 +74,13 @@ Proof.
   - rewrite checked_mul_pow_ten_ok by lia. reflexivity.
 Qed.
 
+
+(* rewrite the translated powers-of-ten functions into their model counterparts (they are convertible) *)
+Ltac to_model_pow :=
+  repeat first
+    [ progress change g_ten_pow with (fun (_ : profile) => ten_pow)
+    | progress change g_checked_ten_pow with (fun (_ : profile) => checked_ten_pow)
+    | progress change g_mul_pow_ten with (fun (_ : profile) => mul_pow_ten)
+    | progress change g_checked_mul_pow_ten with (fun (_ : profile) => checked_mul_pow_ten)
+    | progress change g_i128_div_mod_floor with i128_div_mod_floor ];
+  cbv beta iota.
